@@ -3,18 +3,44 @@ import copy
 
 import numpy as np
 
-SITES = [
-    # (module, class or None, attribute)
-    ("pandora.refinement.refinement", "AbstractRefinement", "loop_refinement"),
-    ("pandora.refinement.refinement", "AbstractRefinement", "loop_approximate_refinement"),
-    ("pandora.cost_volume_confidence.ambiguity", "Ambiguity", "compute_ambiguity"),
-    ("pandora.cost_volume_confidence.ambiguity", "Ambiguity", "compute_ambiguity_and_sampled_ambiguity"),
-    ("pandora.cost_volume_confidence.risk", "Risk", "compute_risk"),
-    ("pandora.cost_volume_confidence.risk", "Risk", "compute_risk_and_sampled_risk"),
-    ("pandora.cost_volume_confidence.interval_bounds", "IntervalBounds", "compute_interval_bounds"),
-    ("pandora.interval_tools", None, "create_connected_graph"),
-    ("pandora.interval_tools", None, "graph_regularization"),
-]
+_SITES = None
+
+
+def discover_sites():
+    """
+    Every place (module attribute or class attribute) that holds a numba dispatcher whose Python source contains a prange
+    loop: [(owner object, attribute name, raw attribute, dispatcher)].  A kernel imported by name into another module is
+    patched there too, so that every caller goes through the capture wrapper.
+    """
+    global _SITES
+    if _SITES is not None:
+        return _SITES
+    import inspect
+    import sys
+
+    from numba.core.registry import CPUDispatcher
+
+    def has_prange(d):
+        try:
+            return "prange(" in inspect.getsource(d.py_func)
+        except (OSError, TypeError):
+            return False
+
+    sites = []
+    for modname in sorted(m for m in sys.modules if m == "pandora" or m.startswith("pandora.")):
+        mod = sys.modules[modname]
+        if mod is None:
+            continue
+        for name, obj in sorted(vars(mod).items(), key=lambda kv: kv[0]):
+            if isinstance(obj, CPUDispatcher) and has_prange(obj):
+                sites.append((mod, name, obj, obj))
+            elif isinstance(obj, type) and getattr(obj, "__module__", "") == modname:
+                for an, av in sorted(vars(obj).items(), key=lambda kv: kv[0]):
+                    f = av.__func__ if isinstance(av, staticmethod) else av
+                    if isinstance(f, CPUDispatcher) and has_prange(f):
+                        sites.append((obj, an, av, f))
+    _SITES = sites  # computed once (in the parent, before the scenario forks): source files are read a single time
+    return sites
 
 
 class Capture:
@@ -24,13 +50,7 @@ class Capture:
         self._saved = []
 
     def install(self):
-        import importlib
-
-        for modname, cls, attr in SITES:
-            mod = importlib.import_module(modname)
-            owner = getattr(mod, cls) if cls else mod
-            raw = owner.__dict__[attr] if cls else getattr(mod, attr)
-            disp = raw.__func__ if isinstance(raw, staticmethod) else raw
+        for owner, attr, raw, disp in discover_sites():
             qual = disp.py_func.__qualname__
 
             def make(disp=disp, qual=qual):
@@ -50,7 +70,7 @@ class Capture:
 
             w = make()
             self._saved.append((owner, attr, raw))
-            setattr(owner, attr, staticmethod(w) if cls else w)
+            setattr(owner, attr, staticmethod(w) if isinstance(raw, staticmethod) else w)
         return self
 
     def uninstall(self):
@@ -60,13 +80,7 @@ class Capture:
 
 
 def dispatchers():
-    import importlib
-
     out = {}
-    for modname, cls, attr in SITES:
-        mod = importlib.import_module(modname)
-        owner = getattr(mod, cls) if cls else mod
-        raw = owner.__dict__[attr] if cls else getattr(mod, attr)
-        disp = raw.__func__ if isinstance(raw, staticmethod) else raw
-        out[disp.py_func.__qualname__] = disp
+    for owner, attr, raw, disp in discover_sites():
+        out.setdefault(disp.py_func.__qualname__, disp)
     return out
